@@ -438,7 +438,7 @@ def run_job(job):
 
 def main(chk):
     quick = chk.tier == "quick"
-    n = 240 if quick else 1600
+    n = 600 if quick else 2000
     jobs = [{"id": "j%d" % i, "seed": job_seed(chk.seed, "C16", i), "cases": 40 if quick else 80, "colcases": 6 if quick else 12}
             for i in range(n)]
     if not quick:
